@@ -292,6 +292,96 @@ pub fn fault_sweep(
     None
 }
 
+/// The property at process level: the real binary in a scratch directory ends by itself; exit status 0 <=> no
+/// `error:` on stderr; on success every explicitly named output exists; on failure nothing new was written
+/// (unless the failure is an output file that could not be created). Self-contained: not compared with the
+/// in-memory run, so differences between the two file servers cannot raise an alarm.
+pub fn real_binary_predicate(files: &[(String, Vec<u8>)], args: &[String]) -> Option<(String, String)> {
+    use crate::engine::realbin;
+    let dir = realbin::scratch("c03");
+    realbin::materialize(&dir, files);
+    let before: std::collections::HashSet<String> = realbin::snapshot(&dir).into_iter().map(|f| f.0).collect();
+    let mut a: Vec<String> = vec!["--color=off".to_string()];
+    a.extend(args.iter().cloned());
+    let r = realbin::run(&realbin::bin_path(false), &dir, &a, &realbin::Limits::default());
+    let after: Vec<String> = realbin::snapshot(&dir).into_iter().map(|f| f.0).filter(|n| !before.contains(n)).collect();
+    let _ = std::fs::remove_dir_all(&dir);
+    // diagnostics of a rejected command line are printed before --color is looked at: strip ANSI sequences
+    let stderr = {
+        let raw = String::from_utf8_lossy(&r.stderr).to_string();
+        let mut out = String::new();
+        let mut it = raw.chars().peekable();
+        while let Some(c) = it.next() {
+            if c == '\u{1b}' && it.peek() == Some(&'[') {
+                for d in it.by_ref() {
+                    if d.is_ascii_alphabetic() {
+                        break;
+                    }
+                }
+            } else {
+                out.push(c);
+            }
+        }
+        out
+    };
+    let has_error = stderr.lines().any(|l| l.trim_start().starts_with("error:"));
+    if r.timed_out {
+        return None; // hangs are C19's business; not judged here
+    }
+    if let Some(sig) = r.signal {
+        if sig == 24 || sig == 9 {
+            return None;
+        }
+        return Some((format!("killed-by-signal-{}", sig), format!("the binary died with signal {}: {}", sig, stderr.chars().take(300).collect::<String>())));
+    }
+    match r.code {
+        Some(101) => Some(("panic-exit".into(), format!("exit status 101: {}", stderr.chars().take(400).collect::<String>()))),
+        Some(0) => {
+            if has_error {
+                return Some(("exit-0-with-error-diagnostic".into(), format!("exit status 0, yet stderr has: {}", stderr.lines().find(|l| l.contains("error:")).unwrap_or(""))));
+            }
+            // explicitly named outputs of groups that do not print
+            let mut groups: Vec<Vec<&String>> = vec![vec![]];
+            for x in args {
+                if x == "--" {
+                    groups.push(vec![]);
+                } else {
+                    groups.last_mut().unwrap().push(x);
+                }
+            }
+            for g in groups {
+                let prints = g.iter().any(|x| *x == "-p" || *x == "--print");
+                let mut name: Option<String> = None;
+                for (i, x) in g.iter().enumerate() {
+                    if *x == "-o" || *x == "--output" {
+                        name = g.get(i + 1).map(|s| s.to_string());
+                    } else if let Some(n) = x.strip_prefix("--output=") {
+                        name = Some(n.to_string());
+                    } else if x.starts_with("-o") && x.len() > 2 && !x.starts_with("--") {
+                        name = Some(x[2..].to_string());
+                    }
+                }
+                if let (false, Some(n)) = (prints, name) {
+                    if !after.contains(&n) && !before.contains(&n) {
+                        return Some(("exit-0-but-output-missing".into(), format!("exit status 0, but the requested output `{}` does not exist (new files: {:?})", n, after)));
+                    }
+                }
+            }
+            None
+        }
+        Some(_) => {
+            if !has_error {
+                return Some(("failure-without-error-diagnostic".into(), format!("exit status {:?} without an `error:` line: {}", r.code, stderr.chars().take(300).collect::<String>())));
+            }
+            if !after.is_empty() && !stderr.contains("could not create") && !stderr.contains("could not write") {
+                return Some(("failure-but-output-written".into(), format!("exit status {:?} ({}), but new files appeared: {:?}", r.code, stderr.lines().find(|l| l.contains("error:")).unwrap_or(""), after)));
+            }
+            None
+        }
+        None => None,
+    }
+}
+
 impl Property for C03 {
     fn id(&self) -> &'static str {
         "C03"
@@ -314,6 +404,7 @@ impl Property for C03 {
         vec![
             "in-process driver::drive with an in-memory file server stands for the process; exit status = Result (src/main.rs maps Err to exit 1)".into(),
             "progress output on stdout is not inspected here (-q is always passed)".into(),
+            "one case in 120 is also run through the real binary in a scratch directory with the process-level form of the predicate (exit status <=> error diagnostic <=> files), judged on its own, not compared with the in-memory run".into(),
         ]
     }
     fn tape_len(&self, _t: Tier) -> usize {
@@ -409,6 +500,9 @@ impl Property for C03 {
     fn crash_is_violation(&self) -> bool {
         true
     }
+    fn setup(&self, _tier: Tier) -> Result<(), String> {
+        crate::engine::realbin::build(false).map(|_| ())
+    }
     fn run(&self, t: &mut Tape, ctx: &mut CaseCtx) -> Verdict {
         let do_faults = t.chance(1, 4);
         let case = build_case(t);
@@ -459,6 +553,19 @@ impl Property for C03 {
         if do_faults {
             if let Some(v) = fault_sweep(&case.files, &case.args, pred, ctx, &|extra| render(&case, extra)) {
                 return v;
+            }
+        }
+        // v2: the same predicate at process level, on the real binary, for a sample of the cases
+        if crate::engine::gen_version() >= 2 && t.chance(1, 120) {
+            ctx.label("real-binary");
+            if let Some((clause, detail)) = real_binary_predicate(&case.files, &case.args) {
+                ctx.evals += 1;
+                let clause = format!("{}|real|{}", pred, clause);
+                if let Some(v) = ctx.judge(clause, detail) {
+                    ctx.want_render = true;
+                    ctx.render(|| render(&case, json!({"real_binary": true})));
+                    return v;
+                }
             }
         }
         Verdict::Pass
